@@ -118,7 +118,7 @@ def run(ctx):
     sc.loglevel_check(ctx, recs, ("final",), 25 if ctx.quick else 250, "c05")
     sc.optimize_check(ctx, recs, ("final",), 25 if ctx.quick else 250, "c05")
     sc.resolve_check(ctx, recs, ("final",), 30 if ctx.quick else 300, "c05")
-    sc.late_edit_check(ctx, recs, ("final",), 20 if ctx.quick else 200, "c05")
+    sc.late_edit_check(ctx, recs, ("final",), 40 if ctx.quick else 300, "c05")
     check(ctx, recs)
 
 
